@@ -152,6 +152,32 @@ theorem C16_read_total (s : Stream) : (readPacketRd s).1 ≠ Res.panic := by
   · obtain ⟨s', h1, _⟩ := h; rw [h1]; simp
   · rw [h]; simp
 
+/-! ### History independence: what was returned for frame i does not depend on what is read later -/
+
+/-- Packet `i` returned = frame `i` of the stream, whatever is read later: from any source that starts with the
+frames of `ps`, reading `ps.length + n` packets — for every number `n` of further reads and every continuation
+`tail` (longer frames, shorter frames, equal lengths, garbage, nothing) — returns a list that starts with exactly
+`ps`. (In the model returned payloads are values; for the Go code this is the statement that a payload string
+handed out by `ReadPacket` / `AcceptCmd` / `Resp` is never changed by a later read on the same connection — the
+correspondence check retains every returned string and compares it after the last read.) -/
+theorem C16_history_independent (ps : List Pkt) (hps : ∀ p ∈ ps, p.payload.length + 10 ≤ 4096) (tail : Bytes)
+    (n : Nat) (s : Stream) (hs : s.flat = framesOf ps ++ tail) :
+    ∃ more s', readMany (ps.length + n) s = (Res.ok (ps ++ more), s') ∧
+      ∀ i (h : i < ps.length), (ps ++ more)[i]? = some ps[i] := by
+  obtain ⟨more, s', h⟩ := history_independent ps hps tail n s hs
+  refine ⟨more, s', h, fun i hi => ?_⟩
+  rw [List.getElem?_append_left hi, List.getElem?_eq_getElem hi]
+
+/-- the same for two continuations: the first `ps.length` packets read do not depend on which frames follow -/
+theorem C16_history_independent_two (ps qs qs' : List Pkt) (hps : ∀ p ∈ ps, p.payload.length + 10 ≤ 4096)
+    (n : Nat) (s t : Stream) (hs : s.flat = framesOf (ps ++ qs)) (ht : t.flat = framesOf (ps ++ qs')) :
+    ∃ a b s' t', readMany (ps.length + n) s = (Res.ok a, s') ∧ readMany (ps.length + n) t = (Res.ok b, t') ∧
+      a.take ps.length = ps ∧ b.take ps.length = ps := by
+  have e : ∀ xs : List Pkt, framesOf (ps ++ xs) = framesOf ps ++ framesOf xs := by intro xs; simp [framesOf]
+  obtain ⟨m1, s', h1⟩ := history_independent ps hps (framesOf qs) n s (by rw [hs, e])
+  obtain ⟨m2, t', h2⟩ := history_independent ps hps (framesOf qs') n t (by rw [ht, e])
+  exact ⟨_, _, s', t', h1, h2, by simp, by simp⟩
+
 /-! ### Fragmentation invariance, extension stability (used by C09) -/
 
 theorem C16_fragInv : Rd.FragInv readPacketRd := fragInv_readPacketRd
@@ -354,5 +380,9 @@ example : (loginRun 5#32 [0x70#8] [0x70#8]).1 = Res.ok () ∧ (loginRun 5#32 [0x
 
 example : (session 5#32 [0x70#8] [0x70#8] [honest (none, [0x61#8], [0x62#8]), honest (some 9#32, [0x63#8], [])]).slog =
     [Ev.login (Res.ok ()), Ev.accept (Res.ok [0x61#8]), Ev.reply (Res.ok ()), Ev.accept (Res.ok [0x63#8]), Ev.reply (Res.ok ())] := by decide
+
+-- long-then-short on one stream: the long payload read first is still what was sent after the short one is read
+example : (readMany 2 (Stream.ofBytes (framesOf [⟨1#32, 2#32, [0x61#8, 0x62#8, 0x63#8, 0x64#8]⟩, ⟨2#32, 2#32, [0x7a#8]⟩]))).1 =
+    Res.ok [⟨1#32, 2#32, [0x61#8, 0x62#8, 0x63#8, 0x64#8]⟩, ⟨2#32, 2#32, [0x7a#8]⟩] := by decide
 
 end GoMC.Props.C16
